@@ -3,6 +3,7 @@ package main
 import (
 	"encoding/json"
 	"fmt"
+	"github.com/internetarchive/Zeno/pkg/models"
 	"os"
 	"path/filepath"
 	"strconv"
@@ -25,8 +26,24 @@ import (
 //	zeno-verif c04 <scratch-dir> <trace> run2 - <n-seeds> <workers>
 func init() { scenarios["c04"] = c04 }
 
-func c04site(org *origin.Server, n int, big bool, bigStatus int) []Seed {
+func c04site(org *origin.Server, n int, big bool, bigStatus int, bigAsset bool, needs map[string][]string) []Seed {
 	var seeds []Seed
+	if bigAsset {
+		// a page whose first asset takes the WARC writer a while (incompressible, 48 MiB) next to small ones requested later
+		p := "/c04/ba"
+		org.Route(0, p+"/big.bin", origin.Resp{Status: 200, Headers: map[string]string{"Content-Type": "application/octet-stream"}, BodyGen: &origin.BodyGen{Kind: "binary", Size: 48 << 20, Seed: 5}})
+		assets := []string{p + "/big.bin"}
+		for j := 0; j < 3; j++ {
+			a := fmt.Sprintf("%s/small%d.png", p, j)
+			org.Route(0, a, okImage(900+j))
+			assets = append(assets, a)
+		}
+		org.Route(0, p+"/page.html", htmlPage("c04 big asset", assets, nil))
+		seeds = append(seeds, Seed{ID: "seed-bigasset", Value: org.URL(0, p+"/page.html")})
+		for _, a := range assets {
+			needs["seed-bigasset"] = append(needs["seed-bigasset"], org.URL(0, a))
+		}
+	}
 	if big {
 		// a body that takes the WARC writer a while to digest, compress and write (incompressible, 64 MiB);
 		// with status 503 and --max-retry 0 it is the answer of an attempt that exhausts the retries
@@ -41,6 +58,7 @@ func c04site(org *origin.Server, n int, big bool, bigStatus int) []Seed {
 			a := fmt.Sprintf("%s/a%d.png", p, j)
 			org.Route(h, a, okImage(k*10+j))
 			assets = append(assets, a)
+			needs[fmt.Sprintf("seed-%04d", k)] = append(needs[fmt.Sprintf("seed-%04d", k)], org.URL(h, a))
 		}
 		org.Route(h, p+"/page.html", htmlPage("c04", assets, nil))
 		seeds = append(seeds, Seed{ID: fmt.Sprintf("seed-%04d", k), Value: org.URL(h, p+"/page.html")})
@@ -95,7 +113,18 @@ func c04(args []string) error {
 		big = true
 		bigStatus, _ = strconv.Atoi(string(b))
 	}
-	seeds := c04site(run.org, n, big, bigStatus)
+	bigAssetFile := filepath.Join(dir, "bigasset.flag")
+	bigAsset := false
+	if strings.HasPrefix(mode, "bigasset+") {
+		bigAsset = true
+		mode = strings.TrimPrefix(mode, "bigasset+")
+		os.WriteFile(bigAssetFile, []byte("1"), 0644)
+	}
+	if _, err := os.Stat(bigAssetFile); err == nil {
+		bigAsset = true
+	}
+	needs := map[string][]string{}
+	seeds := c04site(run.org, n, big, bigStatus, bigAsset, needs)
 	if flaky {
 		// first attempt: the origin holds the answer back until the stop is under way, then cuts the connection
 		mode = strings.TrimPrefix(mode, "flaky+")
@@ -108,6 +137,11 @@ func c04(args []string) error {
 		seeds = append([]Seed{{ID: "seed-flaky", Value: run.org.URL(0, "/c04/flaky.bin")}}, seeds...)
 	}
 	run.tr.Emit(map[string]any{"ev": "c04.phase", "phase": phase, "mode": mode, "n": n})
+	if phase == "run1" { // the page requisites of each seed (all of them answer 200): captures a finished seed must have
+		for id, urls := range needs {
+			run.tr.Emit(map[string]any{"ev": "site.assets", "id": id, "urls": urls})
+		}
+	}
 	if phase == "run1" {
 		b, _ := json.Marshal(run.org.Hosts)
 		os.WriteFile(portsFile, b, 0644)
@@ -120,9 +154,23 @@ func c04(args []string) error {
 		if parts[0] == "kill" || parts[0] == "stop" {
 			k, _ := strconv.Atoi(parts[2])
 			// after recording: the event of the point at which the process dies is in the trace
+			// "<point>@<seed id>": only occurrences of the point that concern that seed count
+			only := ""
+			if i := strings.Index(parts[1], "@"); i >= 0 {
+				parts[1], only = parts[1][:i], parts[1][i+1:]
+			}
 			run.after = func(p string, a ...any) {
 				if p != parts[1] {
 					return
+				}
+				if only != "" {
+					it, ok := (any)(nil), false
+					if len(a) > 0 {
+						it, ok = a[0], true
+					}
+					if seed, isItem := it.(*models.Item); !ok || !isItem || seed.GetID() != only {
+						return
+					}
 				}
 				if count.Add(1) != int64(k) {
 					return
